@@ -114,9 +114,11 @@ def placements():
                 {'k': 'pipe', 'xs': [L12, {'k': 'fill', 's': {'k': 'iter', 's': r, 'map': True}}, b, LIST, r]},
             ]
         shapes += skip_shapes(b, r)
-        for sh in shapes:
-            for scope in ([], [['k1', {'s': 'outer'}]]):
-                yield {'spec': sh, 'target': {'i': 4}, 'scope': scope}
+        shapes += nest_shapes(b, r)
+        for sh0 in shapes:
+            for sh in chain_variants(sh0):
+                for scope in ([], [['k1', {'s': 'outer'}]]):
+                    yield {'spec': sh, 'target': {'i': 4}, 'scope': scope}
     R = lambda k: {'k': 'sRead', 'name': k, 'steps': [], 'item': False}
     extra = [
         # an inner Ref definition of the same name shadows the outer one, for its own subtree only
@@ -155,9 +157,100 @@ def placements():
         {'k': 'tuple', 'xs': [RD(T0), RD(SK), RU]},                   # a Ref definition that is itself skipped
         {'k': 'tuple', 'xs': [{'k': 'specW', 's': SK, 'scope': [['k1', {'s': 'by-skipped-step'}]]}, R('k1')]},
     ]
-    for sh in extra:
-        for scope in ([], [['k1', {'s': 'outer'}], ['k2', {'s': 'outer2'}]]):
-            yield {'spec': sh, 'target': {'i': 4}, 'scope': scope}
+    for sh0 in extra:
+        for sh in chain_variants(sh0):
+            for scope in ([], [['k1', {'s': 'outer'}], ['k2', {'s': 'outer2'}]]):
+                yield {'spec': sh, 'target': {'i': 4}, 'scope': scope}
+
+
+def chain_nodes(j, path=()):
+    """paths of the tuple / Pipe nodes of a spec JSON"""
+    if isinstance(j, dict):
+        if j.get('k') in ('tuple', 'pipe'):
+            yield path
+        for key_, v in j.items():
+            yield from chain_nodes(v, path + (key_,))
+    elif isinstance(j, list):
+        for i, v in enumerate(j):
+            yield from chain_nodes(v, path + (i,))
+
+
+def set_kinds(j, kinds):
+    """copy of j with the chain node at each path of `kinds` spelled as that kind"""
+    def go(x, path):
+        if isinstance(x, dict):
+            y = {key_: go(v, path + (key_,)) for key_, v in x.items()}
+            if path in kinds:
+                y['k'] = kinds[path]
+            return y
+        if isinstance(x, list):
+            return [go(v, path + (i,)) for i, v in enumerate(x)]
+        return x
+    return go(j, ())
+
+
+def chain_variants(shape):
+    """a chain is spelled as a tuple or as a Pipe; both are links-with-their-own-scope wherever they stand
+    (also as a step of another chain).  Every shape is run with every spelling of each of its chains: all
+    2^n combinations for n <= 3 chains, otherwise as written, all flipped, and each single chain flipped."""
+    paths = list(chain_nodes(shape))
+    cur = {}
+    for pth in paths:
+        x = shape
+        for step in pth:
+            x = x[step]
+        cur[pth] = x['k']
+    flip = lambda k: 'pipe' if k == 'tuple' else 'tuple'
+    combos = []
+    if len(paths) <= 3:
+        for mask in range(2 ** len(paths)):
+            combos.append({pth: (flip(cur[pth]) if mask >> i & 1 else cur[pth]) for i, pth in enumerate(paths)})
+    else:
+        combos.append(dict(cur))
+        combos.append({pth: flip(k) for pth, k in cur.items()})
+        for pth in paths:
+            c = dict(cur); c[pth] = flip(cur[pth])
+            combos.append(c)
+    seen = set()
+    for kinds in combos:
+        v = set_kinds(shape, kinds)
+        key_ = json.dumps(v, sort_keys=True)
+        if key_ not in seen:
+            seen.add(key_)
+            yield v
+
+
+def nest_shapes(b, r):
+    """a chain that is *directly* a step of another chain, to depth 3, with the binder inside the inner chain
+    and readers inside it, after it in the enclosing chain and after that in the outermost one: a binding made
+    in a chain ends with that chain; an inner binding shadows an outer one inside the inner chain only.  (Each
+    shape is run in every tuple / Pipe spelling of its chains by `chain_variants`.)"""
+    T0 = {'k': 't', 'steps': []}
+    OUT = {'k': 'sBind', 'bs': [['k1', {'k': 'lit', 'v': {'s': 'earlier'}}]]}
+    C = lambda x: {'k': 'coalesce', 'subs': [x], 'dflt': {'k': 'lit', 'v': {'s': 'unbound'}}, 'dflt_factory': None,
+                   'skip': None, 'skip_exc': ['GlomError']}
+    tup = lambda *xs: {'k': 'tuple', 'xs': list(xs)}
+    D = lambda *xs: {'k': 'dict', 'es': [[{'k': 'str', 's': 'r%d' % i}, x] for i, x in enumerate(xs)]}
+    return [
+        tup(tup(b, T0), r),                                  # inner binding, read by the enclosing chain
+        tup(OUT, tup(b, T0), r),                             # shadowing ends with the inner chain
+        tup(OUT, tup(b, r), r),
+        tup(tup(b, r), C(r)),
+        tup(T0, tup(T0, tup(b, r)), C(r)),                   # two levels
+        tup(OUT, tup(T0, tup(b, T0), D(r, C(r))), D(r, C(r))),
+        tup(tup(tup(b)), C(r)),
+        tup(OUT, tup(tup(b), r), r),
+        tup(tup(OUT, tup(b, T0), A_or(r)), C(r)),
+        tup(b, tup(T0, tup(T0, r))),                         # an outer binding reaches every nested chain
+        tup(tup(b, T0), tup(C(r)), C(r)),                    # sibling inner chains
+        tup(tup(b, {'k': 'val', 'v': {'sent': 'STOP'}}, T0), C(r)),       # STOP inside the inner chain
+        tup(tup(b, {'k': 'val', 'v': {'sent': 'SKIP'}}), C(r)),
+    ]
+
+
+def A_or(r):
+    return {'k': 'coalesce', 'subs': [r], 'dflt': {'k': 'lit', 'v': {'s': 'unbound-inner'}}, 'dflt_factory': None,
+            'skip': None, 'skip_exc': ['GlomError']}
 
 
 def skip_shapes(b, r):
